@@ -119,9 +119,7 @@ Qed.
 
 (* non-vacuity: a wake-up issued between the loop's clear-up and its next poll (epoll back-end) *)
 Example wake_window_example :
-  let C := {| c_be := BEpoll; c_n := 2; c_loop := 1; c_cap := 8;
-              c_scr := fun t => match t with 0 => [OpW; OpW] | _ => [] end;
-              c_fix_exit := true; c_fix_add := true |} in
+  let C := mk_cfg BEpoll 2 1 8 (fun t => match t with 0 => [OpW; OpW] | _ => [] end) true true in
   let s := exec sys (step C) init
     [(0,0);(0,0);(0,0);(0,0);(0,0);
      (1,0);(1,0);(1,0);(1,0);(1,0);(1,0);(1,0);(1,0);(1,0);(1,0);
